@@ -70,7 +70,7 @@ pub open spec fn pop_post(b0: Seq<u8>, b1: Seq<u8>, pm: PieceMgr, w: HeapW, need
 
 @fn src/filedb/inner/piece.rs | impl VarFile | push_free_piece_list
 @opts rlimit=60
-@serves C06
+@serves C06 C18
 @requires
 old_piece_offset.val == 0 || exists|w: HeapW| #[trigger] can_push(old(self)@.bytes, old(self).piece_mgr, w, old_piece_offset.val as nat, old_piece_size.val as nat)
 @ensures
